@@ -41,6 +41,12 @@ var hots = []hot{
 	{"nl", "a\nb"},
 	{"crlf", "a\r\nb"},
 	{"nlnl", "a\n\nb"},
+	{"nl-start", "\nab"},
+	{"nl-end", "ab\n"},
+	{"cr", "a\rb"},
+	{"cr-end", "ab\r"},
+	{"crlf-end", "ab\r\n"},
+	{"crlf-start", "\r\nab"},
 	{"tab", "a\tb"},
 	{"dollar", "a$$b"},
 	{"dollartag", "a$t$b"},
